@@ -744,6 +744,8 @@ func (v *Createhow3) Xdr(xs *xdr.XdrState) {
 		(*Sattr3)(&((v).Obj_attributes)).Xdr(xs)
 	case EXCLUSIVE:
 		(*Createverf3)(&((v).Verf)).Xdr(xs)
+	default:
+		xs.SetError("bad discriminant for createhow3")
 	}
 }
 func (v *CREATE3args) Xdr(xs *xdr.XdrState) {
